@@ -6,8 +6,8 @@ CONSTANTS
   BaseRots <- MC_Rots1
   BasePos <- MC_Pos1
   FramePoses <- MC_FP1
-  GeomOpts <- MC_G1
-  BodyCCs <- MC_CC1
+  GeomOpts <- MC_G3
+  BodyCCs <- MC_CC2
   JointOpts <- MC_J1
   ClassVals <- MC_V1
   ReplOpts <- MC_Repl2
